@@ -1,4 +1,4 @@
 SPECIFICATION Spec
-CONSTANTS EntityRegexAllowsDigits = TRUE
+CONSTANTS EntityRegexAllowsDigits = TRUE FirstDeclarationBecomesDefault = FALSE
 INVARIANTS KnownNamesResolve UnknownNameIsReported SameResult Emit
 CHECK_DEADLOCK FALSE
